@@ -3,7 +3,9 @@
 Spec: Resizer (copy_fast / NeedPass / NoPass = copy; Canonical), Geometry!IsCopy; MC_Resizer explores the pipeline.
 Conformance: recorded resizes with destination = integer crop size for every type / algorithm / filter / alpha / back-end;
 TLC validates the hook sequence (copy_fast) and dst = source region; one-dimension-equal cases: the plan has no pass along
-that dimension and changing one source column (row) changes only that destination column (row); SuperSampling whose
+that dimension and changing one source column (row) changes only that destination column (row) -- also under integer crops
+with a non-zero origin along the unchanged axis (the remaining pass then runs with a row / column offset), one variant per
+destination row / column, every back-end; SuperSampling whose
 intermediate image has the destination's size."""
 import random
 import vlib, rz
@@ -80,6 +82,42 @@ def gen(tier, rng):
                     cases.append(rz.resize_case(pt, sw, sh, dw, dh, alg=alg, flt=flt, m=m, alpha=False, cpu=cpu,
                                                 src_c={"g": "data", "v": content}, log=("dst",), chk=chk, g=10000 + g,
                                                 echo={"skip": [axis, j]}))
+    # one dimension unchanged under an integer crop with a non-zero origin: the kernels of the remaining pass get the crop's
+    # row (column) offset; destination row y must depend on source row top + y only -- for every row of the destination, so
+    # that the leftover rows of unrolled loops (every residue of the height modulo 4 / 8) and every back-end are included
+    for pt in rz.ALL_PT:
+        for n_same in (5, 6, 7, 8, 9, 3):
+            for rows_same in (True, False):
+                for cpu in rz.CPUS:
+                    g += 1
+                    if tier == "quick" and rz.pick(g, 304, [0, 1, 1]):
+                        continue
+                    o_same, o_other = rz.pick(g, 305, [1, 2, 3, 5]), rz.pick(g, 306, [0, 1, 2])
+                    n_other, d_other = rz.pick(g, 307, [(6, 4), (6, 9), (7, 3), (4, 11)])
+                    (alg, flt, m) = rz.pick(g, 308, [("conv", "Bilinear", 1), ("conv", "Lanczos3", 1), ("interp", "CatmullRom", 1), ("conv", "Box", 1)])
+                    if rows_same:      # height kept, width resampled: horizontal pass with a row offset
+                        sw, sh = o_other + n_other + rz.pick(g, 309, [0, 2]), o_same + n_same + rz.pick(g, 310, [0, 1, 4])
+                        box, dw, dh, axis = (o_other, o_same, n_other, n_same), d_other, n_same, 1
+                    else:              # width kept, height resampled: vertical pass with a column offset
+                        sw, sh = o_same + n_same + rz.pick(g, 310, [0, 1, 4]), o_other + n_other + rz.pick(g, 309, [0, 2])
+                        box, dw, dh, axis = (o_same, o_other, n_same, n_other), n_same, d_other, 0
+                    base = tags(pt, sw, sh, rng)
+                    alt = tags(pt, sw, sh, rng)
+                    nc = rz.PT[pt]["nc"]
+                    variants = [(base, ("pipeline", "ret_ok", "outside"), None)]
+                    for j in range(n_same):
+                        other = list(base)
+                        for y in range(sh):
+                            for x in range(sw):
+                                if (x if axis == 0 else y) == o_same + j:
+                                    for k in range(nc):
+                                        i = (y * sw + x) * nc + k
+                                        other[i] = alt[(i * 7 + 3) % len(alt)]
+                        variants.append((other, ("pipeline", "ret_ok", "same_except"), j))
+                    for (content, chk, j) in variants:
+                        cases.append(rz.resize_case(pt, sw, sh, dw, dh, alg=alg, flt=flt, m=m, alpha=False, box=box, Q=1, cpu=cpu,
+                                                    src_c={"g": "data", "v": content}, log=("dst",), chk=chk, g=10000 + g,
+                                                    echo={"skip": [axis, j if j is not None else 0]}))
     # the complete pass-planning table: per axis {integer, fractional} origin x {equal, different} extent -- a pass is needed
     # unless the origin is an integer and the extent unchanged; the logged plan must agree (pipeline) for all 16 combinations
     Q = 4
